@@ -184,6 +184,9 @@ class _Parser:
     def pause_reading(self):
         self.pauses += 1
 
+    def resume_reading(self):
+        pass
+
     def feed_data(self, data):
         return (), False, b""
 
